@@ -23,7 +23,7 @@ def pollsOf (gtMs : Nat) : Nat := (gtMs + 99) / 100
 
 def killFinish (rec : Rec) (wuid pid : Nat) (escalate : Bool) (wt : Waiter) : M Unit := do
   if escalate then sendSignalProcess wuid pid 9 true
-  modO pid fun o => { o with stopping := false }
+  setObjStopping pid false
   objStop pid
   deliver rec wt (.bool true)
 
@@ -47,7 +47,7 @@ def killProcess (rec : Rec) (wuid pid : Nat) (sig : Option Nat) (gt : Option Nat
              if r then notify wuid "kill" (some pid)
              pure r
   if !ok then deliver rec wt (.bool false) else
-  modO pid fun o => { o with stopping := true }
+  setObjStopping pid true
   killLoop rec wuid pid sig 0 (pollsOf gt) wt
 
 def killProcesses (rec : Rec) (wuid : Nat) (sig gt : Option Nat) (wt : Waiter) : M Unit := do
@@ -59,14 +59,14 @@ def killProcesses (rec : Rec) (wuid : Nat) (sig gt : Option Nat) (wt : Waiter) :
 def stopW (rec : Rec) (wuid : Nat) (close : Bool) (wt : Waiter) : M Unit := do
   let w ← getW wuid
   if w.status = .stopped then deliver rec wt .unit else
-  modW wuid fun w => { w with status := .stopping }
+  setStatus wuid .stopping
   let _ ← callHook wuid "before_stop"
   await rec (.killProcesses wuid none none) (.stopAfterKill wuid close) wt
 
 def stopAfterKill (rec : Rec) (wuid : Nat) (_close : Bool) (wt : Waiter) : M Unit := do
   reapProcesses wuid
   notify wuid "stop" none
-  modW wuid fun w => { w with status := .stopped }
+  setStatus wuid .stopped
   let _ ← callHook wuid "after_stop"
   deliver rec wt .unit
 
@@ -91,7 +91,7 @@ def spawnTry (rec : Rec) (wuid : Nat) : Nat → M SpawnRes
         let now ← nowMs
         addObj { pid := pid, wid := wid, started := now }
         emit (.spawn pid w.name wid)
-        modW wuid fun w => { w with pids := w.pids ++ [pid] }
+        addPid wuid pid
         let r ← callHook wuid "after_spawn"
         if !r then
           -- called without yield: detached; the worker stays registered until the kill is done
@@ -209,7 +209,7 @@ def startW (rec : Rec) (wuid : Nat) (wt : Waiter) : M Unit := do
   else
     let r ← callHook wuid "before_start"
     if !r then deliver rec wt .unit else
-    modW wuid fun w => { w with status := .starting }
+    setStatus wuid .starting
     reapProcesses wuid
     await rec (.spawnProcesses wuid) (.startAfterSpawn wuid) wt
 
@@ -217,7 +217,7 @@ def startAfterSpawn (rec : Rec) (wuid : Nat) (wt : Waiter) : M Unit := do
   let w ← getW wuid
   let ok ← if w.pids.isEmpty then pure false else callHook wuid "after_start"
   if !ok then await rec (.stop_ wuid true) .startTail wt else
-  modW wuid fun w => { w with status := .active }
+  setStatus wuid .active
   notify wuid "start" none
   deliver rec wt .unit
 
@@ -265,7 +265,7 @@ def setNumprocesses (rec : Rec) (wuid : Nat) (n : Int) (wt : Waiter) : M Unit :=
   let w ← getW wuid
   let n := if n < 0 then 0 else n
   if w.singleton && n > 1 then deliver rec wt (excVal "ValueError") else
-  modW wuid fun w => { w with np := n }
+  setNp wuid n
   await rec (.manageProcesses wuid) (.setNpTail wuid) wt
 
 def doAction (rec : Rec) (wuid : Nat) (num : Int) (wt : Waiter) : M Unit := do
